@@ -299,9 +299,10 @@ def vecBuffer (M A : Nat) (data : List F) (filler : F) : List F :=
   vec M (fun i => if lo ≤ i ∧ i < hi then data.getD (i - lo) 0 else filler)
 
 /-- `poseidon_varlen`: the digest computed in circuit for a buffer of `maxLen` cells and the
-length `len` (as a number; the circuit asserts `len ≤ MAX_LEN`). Mirrors the code: the branch
-`i == MAX_LEN / RATE` of the chunk loop is never taken (the loop index stops at
-`MAX_LEN / RATE - 1`), so `constrain_last_chunk` is never applied. -/
+length `len` (as a number; the circuit asserts `len ≤ MAX_LEN`). The last chunk
+(`i + 1 == MAX_LEN / RATE`) goes through `constrain_last_chunk`, which zeroes the cells after the
+payload (before fix 7fb7af7 the test was `i == MAX_LEN / RATE`, never true, and the digest of an
+odd-length payload depended on the filler). -/
 def varlen (P : PParams F) (ofNat : Nat → F) (perm : List F → List F) (maxLen : Nat)
     (buffer : List F) (len : Nat) : F :=
   let rate := P.rate
@@ -313,8 +314,8 @@ def varlen (P : PParams F) (ofNat : Nat → F) (perm : List F → List F) (maxLe
     let b := decide (roundedLen = maxLen - i * rate)
     let updating := xor b updating
     let chunk := vec rate (fun j => buffer.getD (i * rate + j) 0)
-    let chunk := if i = maxLen / rate then
-        -- `constrain_last_chunk` (dead code in the pinned tree)
+    let chunk := if i + 1 = maxLen / rate then
+        -- `constrain_last_chunk`
         vec rate (fun j => if lastChunkLen ≠ 0 ∧ lastChunkLen ≤ j then 0 else chunk.getD j 0)
       else chunk
     let upd := perm (vec P.width (fun j => if j < rate then reg.getD j 0 + chunk.getD j 0 else reg.getD j 0))
